@@ -6,7 +6,6 @@ import (
 	"fmt"
 	"go/constant"
 	"go/types"
-	"sort"
 	"strings"
 
 	"golang.org/x/tools/go/ssa"
@@ -82,17 +81,30 @@ func (e *Enc) specCtx(fc *fctx, st *State, guard string) *specCtx {
 				a, best = c, n
 			}
 		}
-		// name#k: the k-th variable of that name in source order, whether or not it is the most recent
-		if len(cands) > 1 {
-			sorted := append([]*ssa.Alloc{}, cands...)
-			sort.Slice(sorted, func(i, j int) bool { return sorted[i].Pos() < sorted[j].Pos() })
-			for k, c := range sorted {
-				if _, ok := st.seen[c]; ok {
-					e.bindLocal(sc, fmt.Sprintf("%s#%d", name, k), c, st, fc)
+		// name#k: the k-th variable of that name in source order, whether or not it is the most recent.
+		// Compiler-generated locals (range indices) have no position: the order of their allocation
+		// instructions decides (namedAllocs).
+		{
+			var all []*ssa.Alloc
+			for _, na := range namedAllocs(fc.fn) {
+				if na.Comment == name {
+					all = append(all, na)
+				}
+			}
+			if len(all) > 1 {
+				for k, c := range all {
+					if _, ok := st.seen[c]; ok {
+						e.bindLocal(sc, fmt.Sprintf("%s#%d", name, k), c, st, fc)
+					} else {
+						e.bindUnseen(sc, fmt.Sprintf("%s#%d", name, k), c)
+					}
 				}
 			}
 		}
 		if a == nil {
+			if len(cands) == 1 {
+				e.bindUnseen(sc, name, cands[0])
+			}
 			continue
 		}
 		e.bindLocal(sc, name, a, st, fc)
@@ -141,6 +153,19 @@ func (e *Enc) bindLocal(sc *specCtx, name string, a *ssa.Alloc, st *State, fc *f
 				sc.vars[name] = SV{T: e.loadAt(st, v.T, et), Ty: et}
 			}
 		}
+	}
+}
+
+// bindUnseen gives a local that was not allocated on this path an arbitrary value of its type, so
+// that a clause which mentions it behind a guard is still well sorted; nothing is known about it.
+func (e *Enc) bindUnseen(sc *specCtx, name string, a *ssa.Alloc) {
+	et := a.Type().(*types.Pointer).Elem()
+	if isStruct(et) || a.Heap && !e.lazy[a] {
+		return
+	}
+	switch et.Underlying().(type) {
+	case *types.Basic, *types.Pointer, *types.Slice, *types.Map, *types.Interface:
+		sc.vars[name] = e.svOfTerm(e.fresh("unseen", e.m.sortOf(et)), et)
 	}
 }
 
@@ -246,9 +271,21 @@ func (sc *specCtx) typeByName(n string) types.Type {
 	}
 	pkg := sc.pkg
 	if i := strings.Index(n, "."); i >= 0 {
+		found := false
 		for _, sp := range sc.e.m.pkgs {
 			if sp != nil && sp.Pkg.Name() == n[:i] {
 				pkg = sp.Pkg
+				found = true
+			}
+		}
+		if !found {
+			// a dependency (os.File, ...): the package with that name and the shortest import path
+			best := ""
+			for _, sp := range sc.e.m.prog.AllPackages() {
+				if sp.Pkg.Name() == n[:i] && (best == "" || len(sp.Pkg.Path()) < len(best)) {
+					best = sp.Pkg.Path()
+					pkg = sp.Pkg
+				}
 			}
 		}
 		n = n[i+1:]
